@@ -1,5 +1,6 @@
 """C05 — results do not depend on read block sizes or on the byte source."""
 from props._rda import Rda
+from props._read import Part
 
 PROP = 'C05'
 PROPS_MODULES = ['LA.Props.C05']
@@ -14,4 +15,4 @@ MANIFEST = {
     'technique': 'Lean 4 refinement proof (representation invariant + abstraction to the byte stream, induction over client programs) + model/C differential correspondence',
     'note': 'Unmodelled format parsers are covered only by the interface contract; see DESIGN.md C05.',
 }
-ENGINES = [Rda(faults=False)]
+ENGINES = [Rda(faults=False), Part()]
